@@ -88,7 +88,7 @@ macro("DemeRunnable", ["t", "d"], """
     and d._lsc != None and t._gsc != None
 """)
 fn(D + "run_metaepoch", abstract=True, params={"tree": "ref:DemeTree"},
-   requires=[cl("runnable", "DemeRunnable(tree, self)")] + [cl("t_" + c.label, c.text.replace("self", "tree")) for c in struct("self")]
+   requires=[cl("runnable", "tree != None and DemeRunnable(tree, self)")] + [cl("t_" + c.label, c.text.replace("self", "tree")) for c in struct("self")]
             + [cl("problems", "LevelProblemsWf(tree)")],
    modifies=OWN_FRAME + USER_PROBLEM_FRAME,
    ensures=[cl("one_more_history_entry", "len(self._history) == old(len(self._history)) + 1 and HistShape(self)", tags="C06"),
